@@ -141,12 +141,14 @@ def stepCfg (_ : Unit) : List String → Unit × String
       ((), "h=" ++ b01 (policyAccepts pol facts))
     | _, _, _, _ => ((), "bad-op")
   | ["sni", k] =>
-    -- one virtual host, no fallback: a name that matches no pattern is refused - whatever its type byte -
-    -- and the server goes on serving
-    -- (the server matches on the label alone and serves `type7f-match`, but the client asked for a name
-    -- of another type than the certificate carries and rejects the certificate: C01's name clause)
-    if k = "match" then ((), "h=1 a=1")
-    else if k = "nomatch" ∨ k = "type7f-nomatch" ∨ k = "type7f-match" ∨ k = "empty" then ((), "h=0 a=1")
+    -- virtual hosts `srv.example` (0), `10.0.0.*` and `\xff*` (1), no fallback.  The server matches the LABEL
+    -- of the requested name against the patterns (glob, C20) whatever its type byte; a name that matches no
+    -- pattern is refused; the client then checks the presented certificate against the name it asked for,
+    -- type included (C01's name clause); and the server goes on serving.
+    if k = "match" then ((), "h=1 p=0 a=1")
+    else if k = "type7f-match" then ((), "h=0 p=0 a=1")
+    else if k = "nomatch" ∨ k = "type7f-nomatch" ∨ k = "empty" ∨ k = "ipv4-other" then ((), "h=0 p=none a=1")
+    else if k = "ipv4" ∨ k = "binary" then ((), "h=1 p=1 a=1")
     else ((), "bad-op")
   | _ => ((), "bad-op")
 
